@@ -5,6 +5,8 @@ from __future__ import annotations
 from typing import TYPE_CHECKING, ClassVar, Generic, TypeVar, cast
 from warnings import warn
 
+import numpy as np
+
 from quansino.mc.canonical import Canonical
 from quansino.mc.contexts import DeformationContext
 from quansino.mc.criteria import CanonicalCriteria, IsobaricCriteria
@@ -131,6 +133,22 @@ class Isobaric(Canonical[MoveType, CriteriaType], Generic[MoveType, CriteriaType
         self.context.last_cell = self.atoms.get_cell()
 
         super().validate_simulation()
+
+    def save_state(self) -> None:
+        """
+        Save the current state. When the accepted trial changed the cell, the moves are
+        notified of the new cell first.
+        """
+        if np.any(self.atoms.cell.array != self.context.last_cell.array):
+            unique_moves = {
+                id(move_storage.move): move_storage.move
+                for move_storage in self.moves.values()
+            }
+
+            for move in unique_moves.values():
+                move.on_cell_changed(self.atoms.get_cell())
+
+        super().save_state()
 
     def revert_state(self) -> None:
         """
